@@ -354,12 +354,13 @@ Lemma compressed_eq_sum : forall csc sjs vals old k,
     == tsum (all_triples sjs vals) k.
 Proof.
   intros csc sjs vals old k L. unfold cm_triples, cm_update.
-  pose proof (cm_update_from_sum sjs vals (cm_map (build_map csc (all_keys sjs)))
-                                 (cm_ukeys (build_map csc (all_keys sjs))) [] (map (fun _ => 0) old) k) as H.
-  simpl in H. rewrite H.
-  - rewrite tsum_combine_zeros. ring.
-  - rewrite map_length. auto.
-  - split; [apply build_map_length|]. intros i I. apply build_map_correct. exact I.
+  assert (L2 : length (cm_ukeys (build_map csc (all_keys sjs))) = length (map (fun _ : Q => 0) old))
+    by (rewrite map_length; auto).
+  assert (MO : map_ok (cm_ukeys (build_map csc (all_keys sjs))) (cm_map (build_map csc (all_keys sjs)))
+                      ([] ++ all_keys sjs)).
+  { split; [apply build_map_length|]. intros i I. apply build_map_correct. exact I. }
+  pose proof (cm_update_from_sum sjs vals _ _ [] _ k L2 MO) as H.
+  cbn [length] in H. rewrite H. rewrite tsum_combine_zeros. ring.
 Qed.
 
 (* repeated updates: the result of an update does not depend on what the storage held before *)
@@ -530,14 +531,16 @@ Definition xfer (s : subjac) (vout : list Q) (ncols : nat) : list Q :=
 Definition local_triples (s : subjac) (vals : list Q) : list triple :=
   combine (map (fun k => ((sj_roff s + fst k)%nat, snd k)) (pat_rc (sj_pat s))) vals.
 
+Lemma nth_map_lt_C : forall {A B} (f : A -> B) l k da db,
+    (k < length l)%nat -> nth k (map f l) db = f (nth k l da).
+Proof. induction l; simpl; intros; try lia. destruct k; auto. apply IHl; lia. Qed.
+
 Lemma qnth_xfer : forall s vout n c, (c < n)%nat ->
     qnth (xfer s vout n) c == (match sj_factor s with Some f => f | None => 1 end) * qnth vout (sj_coff s + remap (sj_src s) c).
 Proof.
   intros. unfold xfer, qnth.
-  rewrite nth_indep with (d' := (fun c => (match sj_factor s with Some f => f | None => 1 end)
-                                        * nth (sj_coff s + remap (sj_src s) c) vout 0) O)
-    by (rewrite map_length, seq_length; auto).
-  rewrite map_nth. rewrite seq_nth by auto. reflexivity.
+  rewrite (nth_map_lt_C _ (seq 0 n) c O 0) by (rewrite seq_length; auto).
+  rewrite seq_nth by auto. reflexivity.
 Qed.
 
 Lemma remap_is_transfer : forall s vals vout ncols r,
@@ -624,7 +627,8 @@ Lemma all_triples_keys : forall sjs vals,
     Forall2 (fun s v => length v = length (sj_keys s)) sjs vals ->
     map fst (all_triples sjs vals) = all_keys sjs.
 Proof.
-  induction 1; simpl; auto. rewrite map_app. unfold all_keys in *. simpl. rewrite IHForall2. f_equal.
+  induction 1; [reflexivity|]. cbn [all_triples]. rewrite map_app.
+  change (all_keys (x :: l)) with (sj_keys x ++ all_keys l). f_equal; [|exact IHForall2].
   unfold sj_triples.
   assert (forall (a : list key) (b : list Q), length b = length a -> map fst (combine a b) = a).
   { induction a; destruct b; simpl; intros; try discriminate; auto. f_equal. apply IHa. lia. }
@@ -657,11 +661,10 @@ Lemma tsum_todense : forall T nr nc k, (fst k < nr)%nat -> (snd k < nc)%nat ->
     dget (todense T nr nc) k = tsum T k.
 Proof.
   intros T nr nc [r c] Hr Hc. unfold dget, todense, qnth. simpl in *.
-  rewrite nth_indep with (d' := (fun r => map (fun c => tsum T (r, c)) (seq 0 nc)) O)
-    by (rewrite map_length, seq_length; auto).
-  rewrite map_nth. rewrite seq_nth by auto. simpl.
-  rewrite nth_indep with (d' := (fun c => tsum T (r, c)) O) by (rewrite map_length, seq_length; auto).
-  rewrite map_nth. rewrite seq_nth by auto. reflexivity.
+  rewrite (nth_map_lt_C _ (seq 0 nr) r O []) by (rewrite seq_length; auto).
+  rewrite seq_nth by auto. simpl.
+  rewrite (nth_map_lt_C _ (seq 0 nc) c O 0) by (rewrite seq_length; auto).
+  rewrite seq_nth by auto. reflexivity.
 Qed.
 
 (* DenseMatrix (repaired in-place path + COO-backed path): whatever array the previous update left, as long as
